@@ -398,4 +398,9 @@ def _parse_replay(out: str) -> str:
 
 
 if __name__ == "__main__":
-    sys.exit(main())
+    _code = main()
+    sys.stdout.flush()
+    sys.stderr.flush()
+    # (not sys.exit: threads leaked by a dead-locked server under test - e.g. asyncio's non-daemon executor threads - must not
+    # keep a run that has already reported its verdict from ending)
+    os._exit(_code if isinstance(_code, int) else 1)
